@@ -80,6 +80,15 @@ def families(rng):
                                                  "dataset": {"d": {"megacomplex": ["s"], "global_megacomplex": ["sp"], "spectral_axis_scale": 1.01}}},
               base + [["amp1", 3.0, {"vary": False}], ["l1", float(rng.uniform(620, 640))], ["w1", float(rng.uniform(20, 40))], ["amp2", 2.0, {"vary": False}], ["l2", float(rng.uniform(660, 680))],
                       ["w2", float(rng.uniform(20, 30))], ["sk", float(rng.uniform(0.1, 0.4))]], None, True, "parallel"))
+    F.append(("full model 3 compartments, shapes declared in rotated order",
+              {"megacomplex": {"s": {"type": "decay-parallel", "compartments": ["a", "b", "c"], "rates": ["k1", "k2", "k3"]}, "sp": {"type": "spectral", "shape": {"b": "sh2", "c": "sh3", "a": "sh1"}}},
+               "shape": {"sh1": {"type": "gaussian", "amplitude": "amp1", "location": "l1", "width": "w1"},
+                         "sh2": {"type": "skewed-gaussian", "amplitude": "amp2", "location": "l2", "width": "w2", "skewness": "sk"},
+                         "sh3": {"type": "gaussian", "amplitude": "amp3", "location": "l3", "width": "w3"}},
+               "dataset": {"d": {"megacomplex": ["s"], "global_megacomplex": ["sp"]}}},
+              base + [["amp1", 3.0, {"vary": False}], ["l1", float(rng.uniform(615, 630))], ["w1", float(rng.uniform(15, 25))], ["amp2", 2.0, {"vary": False}], ["l2", float(rng.uniform(645, 655))],
+                      ["w2", float(rng.uniform(15, 25))], ["sk", float(rng.uniform(0.1, 0.4))], ["amp3", 1.5, {"vary": False}], ["l3", float(rng.uniform(672, 688))], ["w3", float(rng.uniform(12, 20))]],
+              None, True, "parallel"))
     F.append(("two linked datasets + scale", {"megacomplex": {"s": {"type": "decay-parallel", "compartments": ["a", "b"], "rates": ["k1", "k3"]}}, "dataset_groups": {"default": {"link_clp": True}},
                                               "dataset": {"d1": {"megacomplex": ["s"]}, "d2": {"megacomplex": ["s"], "scale": "sc"}}}, base + [["sc", float(rng.uniform(0.5, 3.0)), {"vary": False}]],
               {"d1": ["a", "b"], "d2": ["a", "b"]}, False, "parallel"))
@@ -258,6 +267,19 @@ def run_family(fam, rng, rec, log, counters):
         if not drift_i <= 1e-6:
             rec.violation(f"interrupted-fit-leaves-truth:{name}", ctx, f"started at the generating parameters and interrupted at the third evaluation, the reported parameters are {drift_i:.3e} (relative) away")
             return False
+    if full:
+        # full-model simulation pairs every model column with the global column of the same label: the generating
+        # coefficient matrix is the identity BY LABEL, whatever order the two megacomplexes declare their labels in
+        for d in data:
+            est = r0.data[d].clp
+            rec.count("clp_recoveries_checked")
+            worst = 0.0
+            for gl in est.coords["global_clp_label"].values:
+                for ml in est.coords["clp_label"].values:
+                    worst = max(worst, abs(float(est.sel(global_clp_label=gl, clp_label=ml)) - (1.0 if str(gl) == str(ml) else 0.0)))
+            if not worst <= 1e-6:
+                rec.violation(f"clp-not-recovered:{name}", ctx, f"{d}: the estimated full-model coefficients differ from the identity by label by {worst:.3e}")
+                return False
     if not full:
         for d in data:
             est = r0.data[d].clp
@@ -272,9 +294,9 @@ def run_family(fam, rng, rec, log, counters):
     p2 = p.copy()
     for k in free:
         sgn = float(rng.choice([-1, 1]))
-        if k in ("l1", "l2"):
+        if k in ("l1", "l2", "l3"):
             # a spectral location is 'moderately perturbed' on the scale of the band width, not of its absolute value
-            p2.get(k).value += sgn * float(rng.uniform(0.1, 0.2)) * p.get("w1" if k == "l1" else "w2").value
+            p2.get(k).value += sgn * float(rng.uniform(0.1, 0.2)) * p.get("w" + k[1]).value
         elif k == "pf":
             p2.get(k).value += sgn * float(rng.uniform(1.0, 3.0))
         else:
